@@ -2955,6 +2955,11 @@ func checkSwampName(zeusInterface zeus.Zeus, islandID uint64, inputSwampName str
 		// return with grpc error message
 		return nil, status.Error(codes.InvalidArgument, "SwampName cannot be empty")
 	}
+	// name.Load indexes the three '/'-separated parts without checking: a shorter name would
+	// panic inside the handler, and the recovered panic would make it return (nil, nil)
+	if strings.Count(inputSwampName, "/") < 2 {
+		return nil, status.Error(codes.InvalidArgument, "SwampName must have the form sanctuary/realm/swamp")
+	}
 	swampName := name.Load(inputSwampName)
 
 	// check the existence of the swamp only if it is needed
